@@ -171,6 +171,7 @@ pub enum Event<E: Effect> {
 
     /// Action: Deliver message
     DeliverAction {
+        sender: ProcessId,
         target: ProcessId,
         message: Value,
         heap: Vec<Vec<u8>>,
